@@ -298,6 +298,10 @@ class load(DataStreamProcessor):
             if self.limit_rows is not None:
                 it = self.limiter(it)
             yield it
+        if isinstance(self.load_source, tuple):
+            # the source's stream of resources is read to its end, so that whatever produces it gets
+            # to finish (a flow behind it completes its dumps, checkpoints and finalizers)
+            collections.deque(self.iterators, maxlen=0)
 
     @staticmethod
     def rename_duplicate_headers(duplicate_headers, case_sensitive=True, deduplicate_format=' (%s)'):
